@@ -162,7 +162,15 @@ def gen_model(rng, name, depth, lib, top):
     if top:
         # give outputs port-style names by buffering: o, or vector y[0..]
         outs = []
-        if nout >= 2 and rng.random() < 0.6:
+        if rng.random() < 0.3:
+            # several output vectors (every output is a buffer, so signals may repeat)
+            nout = rng.randint(4, 6)
+            chosen = [rng.choice(driven) for _ in range(nout)]
+            cut = rng.randint(2, nout - 2)
+            names = ['y[%d]' % i for i in range(cut)] + ['z[%d]' % i for i in range(nout - cut)]
+            if rng.random() < 0.5:
+                names = names[cut:] + names[:cut]          # z listed before y in .outputs
+        elif nout >= 2 and rng.random() < 0.6:
             names = ['y[%d]' % i for i in range(nout)]
         else:
             names = ['o%d' % i for i in range(nout)]
